@@ -14,6 +14,7 @@ import (
 	"path/filepath"
 	"sort"
 	"strings"
+	"time"
 
 	"github.com/gorilla/mux"
 	f_log "github.com/transparency-dev/formats/log"
@@ -191,6 +192,25 @@ func scenarioHTTPAPI(t *traceWriter, rng *rand.Rand) {
 		}
 		probe()
 		srv.Close()
+		// the service is gone: the bundled client reports an error (neither bytes, nor "does not exist", nor a crash)
+		func() {
+			res := "err"
+			defer func() {
+				if r := recover(); r != nil {
+					res = "panic"
+				}
+				t.line("A %s kind=down id=%s states=%s => client=%s", s.id, hx([]byte(defs[0].id)), s.statesOf(), res)
+			}()
+			dctx, dcancel := context.WithTimeout(context.Background(), 2*time.Second)
+			defer dcancel()
+			b, cerr := cl.GetLatestCheckpoint(dctx, defs[0].id)
+			switch {
+			case cerr == nil:
+				res = "ok:" + hx(b)
+			case errors.Is(cerr, os.ErrNotExist):
+				res = "notexist"
+			}
+		}()
 		s.end()
 	}
 }
